@@ -420,7 +420,19 @@ fn main() {
                         if si % of != part {
                             continue;
                         }
+                        // --victim each: one enumeration per thread of the concurrent phase, in which only that thread
+                        // is ever preempted (the run cap is shared between the victims)
+                        let victims: Vec<Option<usize>> = if arg(&args, "--victim") == Some("each") {
+                            let nt = scn.phases.iter().map(|p| p.len()).max().unwrap_or(1);
+                            (0..=nt).map(Some).collect()
+                        } else {
+                            vec![None]
+                        };
+                        let per = (max_runs + victims.len() - 1) / victims.len();
+                        for vic in victims {
                         let mut wl = explore::Worklist::new(bound, seed.wrapping_mul(1000003).wrapping_add(si as u64));
+                        wl.victim = vic;
+                        let max_runs = per;
                         let mut n = 0;
                         while let Some(p) = wl.next_prefix() {
                             if n >= max_runs || t_start.elapsed().as_secs_f64() > budget {
@@ -436,6 +448,7 @@ fn main() {
                         }
                         if wl.dropped {
                             exhaustive = false;
+                        }
                         }
                     }
                     "dfs" => {
